@@ -25,11 +25,20 @@ func (P *Prog) declaredWrites(env *TypeEnv, c *Contract) map[string]string {
 			out["ghost*"] = ""
 			return
 		}
+		if name == "docheap*" {
+			for _, c := range docHeapComps(env) {
+				out[c] = env.comps[c]
+			}
+			out["alloc"] = "Int"
+			return
+		}
 		if s, ok := P.ghostComps[name]; ok {
 			out[name] = s
 		} else if s, ok := env.comps[name]; ok {
 			out[name] = s
 		} else if s, ok := P.knownComps[name]; ok {
+			out[name] = s
+		} else if s, ok := P.stateFunSorts[name]; ok {
 			out[name] = s
 		}
 	}
@@ -315,4 +324,23 @@ func findCast(x *Sx) *Sx {
 		}
 	}
 	return nil
+}
+
+// docHeapComps: the part of the heap user callbacks may modify (assumption A13): the field maps and
+// slices of documents. Clover's own objects (plan nodes, indexes, queries, metadata) are out of reach.
+func docHeapComps(env *TypeEnv) []string {
+	mt := types.NewMap(types.Typ[types.String], types.NewInterfaceType(nil, nil))
+	h, v, l := env.mapComps(mt)
+	out := []string{h, v, l}
+	out = append(out, env.cellComp(types.NewInterfaceType(nil, nil)))
+	return out
+}
+
+func isDocHeapComp(env *TypeEnv, name string) bool {
+	for _, c := range docHeapComps(env) {
+		if c == name {
+			return true
+		}
+	}
+	return name == "F_document_Document_fields"
 }
